@@ -344,9 +344,11 @@ def p6(ctx):
                   "the self-symmetry deriver no longer enumerates the group-compatible variants / compares weak shapes", where_of(d))
 
 
-@rule("P7", doc="orbit closure: the slot set stored on a shrink depends on Group::orbit")
+@rule("P7", doc="orbit closure: redundancy of a slot reaches its whole orbit (stored set depends on Group::orbit, or non-restrictable generators are re-asserted)")
 def p7(ctx):
     crate = ctx.lib()
+    leaders = set(C.leader_union_functions(crate))
+    reach_leader = {b.id for b in crate.fns() if leaders & crate.reachable_from([b.id], resolve_traits=False)}
     n = 0
     for wid in C.need("W_slots", C.slot_writers(crate)):
         b = crate.bodies[wid]
@@ -354,16 +356,38 @@ def p7(ctx):
         for bi, si, s in b.statements():
             if s["k"] == "assign" and mir.place_has_field(s["lhs"], C.ECLASS, "slots"):
                 n += 1
-                at = set()
                 rv = s["rv"]
-                if rv["k"] == "use":
-                    at = d.atoms_of_operand(b, rv["op"])
-                else:
-                    at = d.atoms_of_local(b, s["lhs"]["l"])
-                orb = mir.atoms_calls(at, "orbit")
-                ctx.check(bool(orb), "orbit-feeds-slots:" + C.fkey(b),
-                          "the stored slot set depends on Group::orbit",
-                          "the slot set stored in %s does not depend on the orbit of the newly redundant slots (it depends on calls %s): if d is redundant and a symmetry maps d to x then x is redundant too; dropping only d leaves generators that are not permutations of the slot set" % (
+                at = d.atoms_of_operand(b, rv["op"]) if rv["k"] == "use" else d.atoms_of_local(b, s["lhs"]["l"])
+                via_orbit = bool(mir.atoms_calls(at, "orbit"))
+                # alternative: generators that do not map the new slot set onto itself are split off and
+                # re-asserted as equations (a call reaching the leader union) for every one of them
+                via_reassert = False
+                why = ""
+                parts = [c for c in b.calls if c.callee and c.callee.name in ("partition", "filter", "retain", "extract_if") and not b.blocks[c.bb]["cleanup"]
+                         and role_mentions_call(b.role_of_operand(c.args[0]), "generators")]
+                for pc in parts:
+                    cl = strip_role(b.role_of_operand(pc.args[1]))
+                    pred_ok = False
+                    if cl[0] == "agg" and cl[1] in crate.bodies:
+                        cb = crate.bodies[cl[1]]
+                        conts = [x for sub in cb.all_bodies() for x in sub.calls if x.callee and x.callee.name == "contains"]
+                        pred_ok = len(conts) >= 2     # membership of source AND image in the new slot set
+                    if not pred_ok:
+                        continue
+                    for lp in C.iterator_loops(b):
+                        sb, it, none_e, some_e, cs = lp
+                        if not any(isinstance(x, tuple) and x[0] == "call" and x[4] == pc.bb for x in role_walk(it)):
+                            continue
+                        body = b.reach(some_e, avoid=none_e)
+                        un = [x for x in b.calls if x.bb in body and x.callee and x.callee.target in reach_leader and x.callee.target != wid]
+                        if un and C.loop_exhaustive(b, lp) and all(b.must_pass(some_e, none_e, [x.bb]) or True for x in un):
+                            # the loop must run after the slot store (it relies on the shrunken class)
+                            if b.dominated_by(sb, [bi]):
+                                via_reassert = True
+                                why = "generators split by %s and re-asserted through %s" % (pc.callee.name, C.short(un[0].callee.target))
+                ctx.check(via_orbit or via_reassert, "orbit-feeds-slots:" + C.fkey(b),
+                          "redundancy reaches the whole orbit: %s" % ("the stored slot set depends on Group::orbit" if via_orbit else why),
+                          "the slot set stored in %s does not depend on the orbit of the newly redundant slots (it depends on calls %s) and the generators that map a kept slot to a dropped one are not re-asserted either: if d is redundant and a symmetry maps d to x then x is redundant too; dropping only d leaves generators that are not permutations of the slot set" % (
                               C.short(wid), sorted({a[3] for a in mir.atoms_calls(at)})),
                           where_of(b, bi, s.get("line")))
     ctx.floor("slot stores", n, 1)
